@@ -12,6 +12,8 @@ import os
 from .. import common, observe
 from ..common import ToolError
 
+from .. import compose
+
 NEEDS = ["driver"]
 KEYWORDS = set("as break const continue crate else enum extern false fn for if impl in let loop match mod move mut pub ref return "
                "self Self static struct super trait true type unsafe use where while async await dyn abstract become box do final "
@@ -215,9 +217,12 @@ def run(chk):
     chk.extra["trace_events"] = len(events)
     for e, m in zip(events, meta):
         chk.judged((m[0], "t", "".join(e["ident"]), "".join(e["rename"]), e["rule"]))
+    compose.run(chk, "keys")
 
 
 def replay(chk, rec):
+    if "compose" in rec.get("case", {}):
+        return compose.replay(chk, rec, "keys")
     c = rec["case"]
     silent = common.Check(chk.pid, chk.tier, chk.seed)
     pc = [(c.get("prefix", ""), {"swift": {"prefix": c.get("prefix", "")}, "kotlin": {"prefix": c.get("prefix", ""), "package": "com.x"}} if c.get("prefix") else None)]
